@@ -789,3 +789,26 @@ SUBS = [
     Sub("reactions", check_reactions, gen=reaction_cases, quick=120, thorough=1000, shards=4,
         doc="sum of Calc_Reaction on a clamped patch + sum of the applied loads = 0 per direction"),
 ]
+
+
+# ------------------------------------------------------------------------------------------
+# (added by the lead) one elastic energy case per element type, organised and unstructured: the generated cases
+# reach a given type only a few times per run, and the quadrature of the energy must be the one of K for each type
+
+
+def enum_energy_types(tier):
+    from vlib import gen_mesh as _gm
+
+    sq = [[1.0, 0.0], [0.1, 1.1], [-1.0, 0.2], [-0.1, -0.9]]
+    for i, et in enumerate(_gm.T2D + _gm.T3D):
+        d3 = et in _gm.T3D
+        for organised in ((True, False) if not d3 else (True,)):
+            r = dict(verts=sq, h=0.9 if not d3 else 1.2, elemType=et, organised=organised, extrude=[0.1, 0.0, 0.8] if d3 else None,
+                     layers=1 if d3 else 0, A=None, b=None, perm=None, orphans=0)
+            dim = 3 if d3 else 2
+            model = dict(cls="iso", dim=dim, planeStress=(i % 2 == 0) and not d3, thickness=1.0 if d3 else 0.5, angles=[0.0] if not d3 else [0.1, 0.1, 0.1],
+                         E=4.0, v=0.3)
+            yield dict(sim="elastic", seed=100 + i, only=None, algo="elliptic", model=model, recipe=r)
+
+
+SUBS.append(Sub("energy_types", check_energy, enum=enum_energy_types))
